@@ -781,3 +781,4 @@ def unit_mix_raw(twin=False):
     return r
 from props.c10_ext2 import UNITS as _U2; UNITS = UNITS + _U2
 from props.c10_ext3 import UNITS as _U3; UNITS = UNITS + _U3
+from props.c10_ext5 import UNITS as _U5; UNITS = UNITS + _U5
